@@ -1554,11 +1554,11 @@ const fn simplify_range_mono(
 ) -> Result<Range<usize>, (usize, usize, SliceErrorKind)> {
     let start = match start {
         Bound::Included(start) => start,
-        Bound::Excluded(start) => start + 1,
+        Bound::Excluded(start) => start.saturating_add(1),
         Bound::Unbounded => 0,
     };
     let end = match end {
-        Bound::Included(end) => end + 1,
+        Bound::Included(end) => end.saturating_add(1),
         Bound::Excluded(end) => end,
         Bound::Unbounded => len,
     };
